@@ -1,3 +1,1049 @@
-(* Linear.v — executable model of memutils/metadata/linear.go (placeholder, being written) *)
+(* Linear.v — executable model of memutils/metadata/linear.go (default build, DebugMargin = 0).
+
+   Representation.  The two Go slices suballocations0 / suballocations1 are the lists l_v0 / l_v1;
+   firstVectorIndex (0 or 1) is the boolean l_swapped, flipped where Go does `firstVectorIndex ^= 1`.
+   `first` / `second` are accessSuballocationsFirst / accessSuballocationsSecond.  A Suballocation is
+   a `sub`; Type 0 marks a lazily deleted ("null") item.  Handles are offset+1 exactly as in Go.
+   sumFreeSize, secondVectorMode and the three null-item counters are explicit state and are updated
+   the way the Go code updates them.
+
+   Go loops that walk a slice by index are modelled by structural recursion over the part of the
+   slice the loop walks (a suffix `skipn i v`, or `rev v` for the loops that run from the last index
+   down to 0).  Every Go panic site (explicit panic(...), slice index out of range, slice bounds out
+   of range, integer division by zero) is an explicit "panic" result (None or a *Panic constructor).
+   Slice capacity is not modelled: no behaviour of linear.go depends on it.
+
+   When an operation panics the model reports RPanic and returns the state it started from (like
+   Tlsf.v); the partially updated state the Go object is left in after a recovered panic is not
+   modelled. *)
 From Coq Require Import ZArith List Bool Lia.
 From Arsenal Require Import Util Gran.
+Import ListNotations.
+Open Scope Z_scope.
+
+(* ---------------------------------------------------------------- state *)
+
+(* Go: Suballocation *)
+Record sub := mkSub {
+  s_off : Z;
+  s_size : Z;
+  s_tag : option Z;         (* user data; None = nil *)
+  s_type : Z;               (* 0 = freed item *)
+  (* ghost fields (do not influence behaviour): what was requested for this allocation *)
+  s_reqsize : Z;
+  s_reqalign : Z
+}.
+
+Definition is_free (s : sub) : bool := s_type s =? 0.
+
+(* Go: suballoc.Type = 0; suballoc.UserData = nil *)
+Definition mark_free (s : sub) : sub :=
+  mkSub (s_off s) (s_size s) None 0 (s_reqsize s) (s_reqalign s).
+
+Definition set_tag (tag : option Z) (s : sub) : sub :=
+  mkSub (s_off s) (s_size s) tag (s_type s) (s_reqsize s) (s_reqalign s).
+
+(* Go: secondVectorMode *)
+Inductive mode := MEmpty | MRing | MDouble.
+
+Definition mode_eqb (a b : mode) : bool :=
+  match a, b with
+  | MEmpty, MEmpty | MRing, MRing | MDouble, MDouble => true
+  | _, _ => false
+  end.
+
+(* Go: LinearBlockMetadata (with the BlockMetadataBase fields size, allocationGranularity,
+   granularityHandler) *)
+Record linear := mkL {
+  l_size : Z;
+  l_gran : Z;               (* m.allocationGranularity *)
+  l_h : gran;               (* m.granularityHandler; only AllocationsConflict is ever called *)
+  l_v0 : list sub;          (* m.suballocations0 *)
+  l_v1 : list sub;          (* m.suballocations1 *)
+  l_swapped : bool;         (* m.firstVectorIndex != 0 *)
+  l_mode : mode;
+  l_sum_free : Z;
+  l_null_begin : Z;         (* m.firstNullItemsBeginCount *)
+  l_null_middle : Z;        (* m.firstNullItemsMiddleCount *)
+  l_null_second : Z         (* m.secondNullItemsCount *)
+}.
+
+(* Go: NewLinearBlockMetadata + Init *)
+Definition linear_init (h : handler) (gr size : Z) : linear :=
+  mkL size gr (gran_init h gr size) [] [] false MEmpty size 0 0 0.
+
+(* Go: accessSuballocationsFirst / accessSuballocationsSecond *)
+Definition first (l : linear) : list sub := if l_swapped l then l_v1 l else l_v0 l.
+Definition second (l : linear) : list sub := if l_swapped l then l_v0 l else l_v1 l.
+
+(* *m.accessSuballocationsFirst() = v *)
+Definition with_first (l : linear) (v : list sub) : linear :=
+  if l_swapped l
+  then mkL (l_size l) (l_gran l) (l_h l) (l_v0 l) v (l_swapped l) (l_mode l) (l_sum_free l)
+           (l_null_begin l) (l_null_middle l) (l_null_second l)
+  else mkL (l_size l) (l_gran l) (l_h l) v (l_v1 l) (l_swapped l) (l_mode l) (l_sum_free l)
+           (l_null_begin l) (l_null_middle l) (l_null_second l).
+
+(* *m.accessSuballocationsSecond() = v *)
+Definition with_second (l : linear) (v : list sub) : linear :=
+  if l_swapped l
+  then mkL (l_size l) (l_gran l) (l_h l) v (l_v1 l) (l_swapped l) (l_mode l) (l_sum_free l)
+           (l_null_begin l) (l_null_middle l) (l_null_second l)
+  else mkL (l_size l) (l_gran l) (l_h l) (l_v0 l) v (l_swapped l) (l_mode l) (l_sum_free l)
+           (l_null_begin l) (l_null_middle l) (l_null_second l).
+
+Definition with_mode (l : linear) (m : mode) : linear :=
+  mkL (l_size l) (l_gran l) (l_h l) (l_v0 l) (l_v1 l) (l_swapped l) m (l_sum_free l)
+      (l_null_begin l) (l_null_middle l) (l_null_second l).
+
+Definition with_sum_free (l : linear) (f : Z) : linear :=
+  mkL (l_size l) (l_gran l) (l_h l) (l_v0 l) (l_v1 l) (l_swapped l) (l_mode l) f
+      (l_null_begin l) (l_null_middle l) (l_null_second l).
+
+Definition with_nulls (l : linear) (nb nm ns : Z) : linear :=
+  mkL (l_size l) (l_gran l) (l_h l) (l_v0 l) (l_v1 l) (l_swapped l) (l_mode l) (l_sum_free l)
+      nb nm ns.
+
+(* m.firstVectorIndex ^= 1 *)
+Definition swap_vectors (l : linear) : linear :=
+  mkL (l_size l) (l_gran l) (l_h l) (l_v0 l) (l_v1 l) (negb (l_swapped l)) (l_mode l) (l_sum_free l)
+      (l_null_begin l) (l_null_middle l) (l_null_second l).
+
+(* ---------------------------------------------------------------- slice helpers *)
+
+(* v[i]; None = index out of range (Go panics) *)
+Definition nth_z (v : list sub) (i : Z) : option sub :=
+  if i <? 0 then None else nth_error v (Z.to_nat i).
+
+(* v[len(v)-1]; None = empty slice (Go panics with index -1) *)
+Definition last_z (v : list sub) : option sub := nth_z v (zlen v - 1).
+
+(* the items v[i], v[i+1], ... a loop starting at index i walks; None = i is negative (the first
+   v[i] such a loop evaluates panics) *)
+Definition suffix_from (v : list sub) (i : Z) : option (list sub) :=
+  if i <? 0 then None else Some (skipn (Z.to_nat i) v).
+
+(* v[i] = f(v[i]) for an index already known to be in range *)
+Definition set_nth_z (v : list sub) (i : Z) (f : sub -> sub) : list sub :=
+  update_nth (Z.to_nat i) f v.
+
+(* ---------------------------------------------------------------- sort.Find *)
+
+(* Go (package sort):  i, j := 0, n; for i < j { h := int(uint(i+j) >> 1);
+                        if cmp(h) > 0 { i = h + 1 } else { j = h } }
+   cmp returns None when the probe indexes out of range (panic).  The interval shrinks on every
+   iteration, so S n units of fuel always suffice; running out of fuel is reported as None. *)
+Fixpoint find_loop (cmp : Z -> option Z) (i j : Z) (fuel : nat) : option Z :=
+  match fuel with
+  | O => None
+  | S f =>
+    if i <? j then
+      let h := Z.shiftr (i + j) 1 in
+      match cmp h with
+      | None => None
+      | Some c => if c >? 0 then find_loop cmp (h + 1) j f else find_loop cmp i h f
+      end
+    else Some i
+  end.
+
+(* Go: sort.Find(n, cmp) = (i, i < n && cmp(i) == 0); None = a probe panicked *)
+Definition sort_find (n : Z) (cmp : Z -> option Z) : option (Z * bool) :=
+  match find_loop cmp 0 n (S (Z.to_nat n)) with
+  | None => None
+  | Some i =>
+    if i <? n then
+      match cmp i with
+      | None => None
+      | Some c => Some (i, c =? 0)
+      end
+    else Some (i, false)
+  end.
+
+(* ---------------------------------------------------------------- counters *)
+
+(* Go: AllocationCount *)
+Definition allocation_count (l : linear) : Z :=
+  zlen (first l) - l_null_begin l - l_null_middle l + zlen (second l) - l_null_second l.
+
+(* Go: IsEmpty *)
+Definition is_empty (l : linear) : bool := allocation_count l =? 0.
+
+(* Go: SumFreeSize *)
+Definition sum_free_size (l : linear) : Z := l_sum_free l.
+
+(* Go: MayHaveFreeBlock *)
+Definition may_have_free (l : linear) (atype size : Z) : bool := size <=? l_sum_free l.
+
+(* ---------------------------------------------------------------- cleanupAfterFree *)
+
+(* Go: shouldCompactFirstVector *)
+Definition should_compact (l : linear) : bool :=
+  let nulls := l_null_begin l + l_null_middle l in
+  let n := zlen (first l) in
+  (n >? 32) && (nulls * 2 >=? (n - nulls) * 3).
+
+(* Go: for begin < len(v) && v[begin].Type == 0 { begin++; middle-- }
+   `items` is v[begin:]; the result is how many times the body runs. *)
+Fixpoint count_leading_free (items : list sub) : Z :=
+  match items with
+  | [] => 0
+  | s :: rest => if is_free s then 1 + count_leading_free rest else 0
+  end.
+
+(* the loop above on vector v starting from counters (nb, nm); None = nb negative (v[nb] panics) *)
+Definition absorb_leading_free (v : list sub) (nb nm : Z) : option (Z * Z) :=
+  match suffix_from v nb with
+  | None => None
+  | Some items => let k := count_leading_free items in Some (nb + k, nm - k)
+  end.
+
+(* Go: for n > 0 && v[len(v)-1].Type == 0 { n--; v = v[:len(v)-1] }   on the reversed vector.
+   None = v became empty while n > 0 (v[-1] panics) *)
+Fixpoint trim_tail_rev (rv : list sub) (n : Z) : option (list sub * Z) :=
+  match rv with
+  | [] => if n >? 0 then None else Some ([], n)
+  | s :: rest =>
+    if n >? 0 then
+      if is_free s then trim_tail_rev rest (n - 1) else Some (rv, n)
+    else Some (rv, n)
+  end.
+
+(* "Find more null items at the end of the first / second vector" *)
+Definition trim_tail (v : list sub) (n : Z) : option (list sub * Z) :=
+  match trim_tail_rev (rev v) n with
+  | None => None
+  | Some (rv, n') => Some (rev rv, n')
+  end.
+
+(* Go: removeFromBeginning := 0
+       for n > 0 && v[removeFromBeginning].Type == 0 { n--; removeFromBeginning++ }
+       v = v[removeFromBeginning:]
+   None = ran off the end of v while n > 0 (index out of range) *)
+Fixpoint trim_front (v : list sub) (n : Z) : option (list sub * Z) :=
+  match v with
+  | [] => if n >? 0 then None else Some ([], n)
+  | s :: rest =>
+    if n >? 0 then
+      if is_free s then trim_front rest (n - 1) else Some (v, n)
+    else Some (v, n)
+  end.
+
+(* Go: for firstVector[srcIndex].Type == 0 { srcIndex++ }  followed by the read of
+   firstVector[srcIndex]; `items` is firstVector[srcIndex:].  Returns the live item found and the
+   items after it; None = ran off the end (index out of range) *)
+Fixpoint next_live (items : list sub) : option (sub * list sub) :=
+  match items with
+  | [] => None
+  | s :: rest => if is_free s then next_live rest else Some (s, rest)
+  end.
+
+(* Go: the compaction loop  for dstIndex := 0; dstIndex < nonNullItemCount; dstIndex++ {...}.
+   It copies in place, but dstIndex <= srcIndex throughout, so every read sees the original
+   item; after the loop firstVector[:nonNullItemCount] holds exactly the items returned here. *)
+Fixpoint compact_loop (items : list sub) (n : nat) : option (list sub) :=
+  match n with
+  | O => Some []
+  | S n' =>
+    match next_live items with
+    | None => None
+    | Some (s, rest) =>
+      match compact_loop rest n' with
+      | None => None
+      | Some out => Some (s :: out)
+      end
+    end
+  end.
+
+(* Go: the `if m.shouldCompactFirstVector() {...}` block of cleanupAfterFree *)
+Definition compact_first (l : linear) : option linear :=
+  if should_compact l then
+    let fv := first l in
+    let non_null := zlen fv - l_null_begin l - l_null_middle l in
+    if non_null <? 0 then None (* firstVector[:nonNullItemCount]: slice bounds out of range *) else
+    match suffix_from fv (l_null_begin l) with
+    | None => None
+    | Some items =>
+      match compact_loop items (Z.to_nat non_null) with
+      | None => None
+      | Some out => Some (with_nulls (with_first l out) 0 0 (l_null_second l))
+      end
+    end
+  else Some l.
+
+(* Go: the `if len(secondVector) > 0 && m.secondVectorMode == SecondVectorModeRingBuffer {...}`
+   block ("Swap vectors") at the end of cleanupAfterFree *)
+Definition swap_if_ring (l : linear) : option linear :=
+  if (zlen (second l) >? 0) && mode_eqb (l_mode l) MRing then
+    match absorb_leading_free (second l) (l_null_begin l) (l_null_second l) with
+    | None => None
+    | Some (nb, nm) => Some (swap_vectors (with_nulls (with_mode l MEmpty) nb nm 0))
+    end
+  else Some l.
+
+(* Go: the `if len(firstVector)-m.firstNullItemsBeginCount == 0 {...}` block ("First vector became
+   empty") *)
+Definition first_became_empty (l : linear) : option linear :=
+  if zlen (first l) - l_null_begin l =? 0 then
+    swap_if_ring (with_nulls (with_first l []) 0 (l_null_middle l) (l_null_second l))
+  else Some l.
+
+(* Go: cleanupAfterFree.  None = panic *)
+Definition cleanup_after_free (l : linear) : option linear :=
+  if is_empty l then
+    Some (with_mode (with_nulls (with_second (with_first l []) []) 0 0 0) MEmpty)
+  else
+  if l_null_begin l + l_null_middle l >? zlen (first l) then None (* explicit panic(...) *) else
+  (* find more null items at the beginning of the first vector *)
+  match absorb_leading_free (first l) (l_null_begin l) (l_null_middle l) with
+  | None => None
+  | Some (nb, nm0) =>
+    (* find more null items at the end of the first vector *)
+    match trim_tail (first l) nm0 with
+    | None => None
+    | Some (fv, nm) =>
+      (* find more null items at the end of the second vector *)
+      match trim_tail (second l) (l_null_second l) with
+      | None => None
+      | Some (sv0, ns0) =>
+        (* find more null items at the beginning of the second vector *)
+        match trim_front sv0 ns0 with
+        | None => None
+        | Some (sv, ns) =>
+          let l1 := with_nulls (with_second (with_first l fv) sv) nb nm ns in
+          match compact_first l1 with
+          | None => None
+          | Some l2 =>
+            let l3 := if zlen (second l2) =? 0 then with_mode l2 MEmpty else l2 in
+            first_became_empty l3
+          end
+        end
+      end
+    end
+  end.
+
+(* ---------------------------------------------------------------- Free *)
+
+Inductive freeres := FOk (l' : linear) | FError | FPanic.
+
+(* outcome of one of the cases Free tries in turn *)
+Inductive tryres := TDone (l' : linear) | TSkip | TPanic.
+
+(* m.cleanupAfterFree(); return nil *)
+Definition finish_free (l : linear) : tryres :=
+  match cleanup_after_free l with
+  | Some l' => TDone l'
+  | None => TPanic
+  end.
+
+(* Go: Free, "We're freeing the first allocation, mark it as empty at the beginning" *)
+Definition free_first_item (l : linear) (offset : Z) : tryres :=
+  let fv := first l in
+  if zlen fv >? 0 then
+    match nth_z fv (l_null_begin l) with
+    | None => TPanic
+    | Some s =>
+      if s_off s =? offset then
+        let l1 := with_first l (set_nth_z fv (l_null_begin l) mark_free) in
+        let l2 := with_sum_free l1 (l_sum_free l + s_size s) in
+        finish_free (with_nulls l2 (l_null_begin l + 1) (l_null_middle l) (l_null_second l))
+      else TSkip
+    end
+  else TSkip.
+
+(* Go: Free, "Last allocation in a ring buffer or top of upper stack" / "Last allocation in first
+   vector" *)
+Definition free_last_item (l : linear) (offset : Z) : tryres :=
+  match l_mode l with
+  | MRing | MDouble =>
+    match last_z (second l) with
+    | None => TPanic
+    | Some s =>
+      if s_off s =? offset then
+        finish_free (with_second (with_sum_free l (l_sum_free l + s_size s)) (removelast (second l)))
+      else TSkip
+    end
+  | MEmpty =>
+    match last_z (first l) with
+    | None => TPanic
+    | Some s =>
+      if s_off s =? offset then
+        finish_free (with_first (with_sum_free l (l_sum_free l + s_size s)) (removelast (first l)))
+      else TSkip
+    end
+  end.
+
+(* comparison callback of the searches over the live window of the first vector:
+   offset - firstVector[virtualIndex + firstNullItemsBeginCount].Offset *)
+Definition cmp_first (l : linear) (offset : Z) (virtualIndex : Z) : option Z :=
+  match nth_z (first l) (virtualIndex + l_null_begin l) with
+  | None => None
+  | Some s => Some (offset - s_off s)
+  end.
+
+(* comparison callback of the searches over the second vector: ascending offsets in a ring
+   buffer, descending offsets in a double stack *)
+Definition cmp_second (l : linear) (offset : Z) (index : Z) : option Z :=
+  match nth_z (second l) index with
+  | None => None
+  | Some s =>
+    match l_mode l with
+    | MDouble => Some (s_off s - offset)
+    | _ => Some (offset - s_off s)
+    end
+  end.
+
+(* Go: Free, "Item from the middle of first vector" *)
+Definition free_middle_first (l : linear) (offset : Z) : tryres :=
+  let fv := first l in
+  match sort_find (zlen fv - l_null_begin l) (cmp_first l offset) with
+  | None => TPanic
+  | Some (_, false) => TSkip
+  | Some (vi, true) =>
+    let out := vi + l_null_begin l in
+    match nth_z fv out with
+    | None => TPanic
+    | Some s =>
+      let l1 := with_first l (set_nth_z fv out mark_free) in
+      let l2 := with_nulls l1 (l_null_begin l) (l_null_middle l + 1) (l_null_second l) in
+      finish_free (with_sum_free l2 (l_sum_free l + s_size s))
+    end
+  end.
+
+(* Go: Free, "Item from the middle of second vector" *)
+Definition free_middle_second (l : linear) (offset : Z) : tryres :=
+  if mode_eqb (l_mode l) MEmpty then TSkip else
+  let sv := second l in
+  match sort_find (zlen sv) (cmp_second l offset) with
+  | None => TPanic
+  | Some (_, false) => TSkip
+  | Some (out, true) =>
+    match nth_z sv out with
+    | None => TPanic
+    | Some s =>
+      let l1 := with_second l (set_nth_z sv out mark_free) in
+      let l2 := with_nulls l1 (l_null_begin l) (l_null_middle l) (l_null_second l + 1) in
+      finish_free (with_sum_free l2 (l_sum_free l + s_size s))
+    end
+  end.
+
+Definition or_try (a : tryres) (b : tryres) : tryres :=
+  match a with TSkip => b | _ => a end.
+
+(* Go: Free *)
+Definition lin_free (l : linear) (handle : Z) : freeres :=
+  let offset := handle - 1 in
+  match or_try (free_first_item l offset)
+       (or_try (free_last_item l offset)
+       (or_try (free_middle_first l offset)
+               (free_middle_second l offset))) with
+  | TDone l' => FOk l'
+  | TSkip => FError
+  | TPanic => FPanic
+  end.
+
+(* ---------------------------------------------------------------- findSuballocation, user data *)
+
+Inductive findres := FoundFirst (index : Z) | FoundSecond (index : Z) | NotFound | FindPanic.
+
+(* Go: findSuballocation *)
+Definition find_suballocation (l : linear) (offset : Z) : findres :=
+  match sort_find (zlen (first l) - l_null_begin l) (cmp_first l offset) with
+  | None => FindPanic
+  | Some (vi, true) => FoundFirst (vi + l_null_begin l)
+  | Some (_, false) =>
+    if mode_eqb (l_mode l) MEmpty then NotFound else
+    match sort_find (zlen (second l)) (cmp_second l offset) with
+    | None => FindPanic
+    | Some (i, true) => FoundSecond i
+    | Some (_, false) => NotFound
+    end
+  end.
+
+Inductive udres := UDOk (tag : option Z) | UDError | UDPanic.
+
+(* Go: AllocationUserData *)
+Definition get_user_data (l : linear) (handle : Z) : udres :=
+  match find_suballocation l (handle - 1) with
+  | FoundFirst i => match nth_z (first l) i with Some s => UDOk (s_tag s) | None => UDPanic end
+  | FoundSecond i => match nth_z (second l) i with Some s => UDOk (s_tag s) | None => UDPanic end
+  | NotFound => UDError
+  | FindPanic => UDPanic
+  end.
+
+Inductive setres := SetOk (l' : linear) | SetError | SetPanic.
+
+(* Go: SetAllocationUserData *)
+Definition set_user_data (l : linear) (handle : Z) (tag : option Z) : setres :=
+  match find_suballocation l (handle - 1) with
+  | FoundFirst i =>
+    match nth_z (first l) i with
+    | Some _ => SetOk (with_first l (set_nth_z (first l) i (set_tag tag)))
+    | None => SetPanic
+    end
+  | FoundSecond i =>
+    match nth_z (second l) i with
+    | Some _ => SetOk (with_second l (set_nth_z (second l) i (set_tag tag)))
+    | None => SetPanic
+    end
+  | NotFound => SetError
+  | FindPanic => SetPanic
+  end.
+
+(* Go: AllocationOffset (never fails) *)
+Definition allocation_offset (handle : Z) : Z := handle - 1.
+
+(* Go: Clear *)
+Definition lin_clear (l : linear) : linear :=
+  mkL (l_size l) (l_gran l) (l_h l) [] [] (l_swapped l) MEmpty (l_size l) 0 0 0.
+
+(* ---------------------------------------------------------------- CreateAllocationRequest *)
+
+(* Go: blocksOnSamePage.  None = one of the three explicit panics *)
+Definition blocks_on_same_page (off1 size1 off2 pagesize : Z) : option bool :=
+  if off1 + size1 >? off2 then None else
+  if size1 <? 1 then None else
+  if pagesize <? 1 then None else
+  let end1 := off1 + size1 - 1 in
+  let end_page1 := Z.land end1 (Z.lnot (pagesize - 1)) in
+  let start_page2 := Z.land off2 (Z.lnot (pagesize - 1)) in
+  Some (end_page1 =? start_page2).
+
+(* The four loops "check previous suballocations": `items` are the suballocations in the order the
+   loop visits them; each must lie before resultOffset.  conflicts ty = the AllocationsConflict
+   call of that loop on the visited item's type.  Some true = a conflicting item shares the page,
+   Some false = left the page / ran out of items first, None = blocksOnSamePage panicked *)
+Fixpoint scan_prev (items : list sub) (resultOffset pagesize : Z) (conflicts : Z -> bool) : option bool :=
+  match items with
+  | [] => Some false
+  | s :: rest =>
+    match blocks_on_same_page (s_off s) (s_size s) resultOffset pagesize with
+    | None => None
+    | Some false => Some false
+    | Some true => if conflicts (s_type s) then Some true else scan_prev rest resultOffset pagesize conflicts
+    end
+  end.
+
+(* The three loops "check next suballocations": the candidate [resultOffset, resultOffset+allocSize)
+   must lie before each visited item *)
+Fixpoint scan_next (items : list sub) (resultOffset allocSize pagesize : Z) (conflicts : Z -> bool) : option bool :=
+  match items with
+  | [] => Some false
+  | s :: rest =>
+    match blocks_on_same_page resultOffset allocSize (s_off s) pagesize with
+    | None => None
+    | Some false => Some false
+    | Some true => if conflicts (s_type s) then Some true else scan_next rest resultOffset allocSize pagesize conflicts
+    end
+  end.
+
+(* Go: AllocationRequestType *)
+Inductive reqtype := RTTlsf | RTUpperAddress | RTEndOf1st | RTEndOf2nd.
+
+(* Go: AllocationRequest (the fields linear.go uses) *)
+Record request := mkReq {
+  rq_handle : Z;            (* BlockAllocationHandle = offset + 1 *)
+  rq_size : Z;
+  rq_type : reqtype
+}.
+
+Definition rq_offset (r : request) : Z := rq_handle r - 1.
+
+Inductive reqres := QGranted (r : request) | QRefused | QError | QPanic.
+
+(* lastItem.Offset + lastItem.Size of a vector, 0 when it is empty *)
+Definition end_of (v : list sub) : Z :=
+  match last_z v with
+  | Some s => s_off s + s_size s
+  | None => 0
+  end.
+
+(* Go: "Check previous suballocations for granularity conflict & align up if necessary" (both
+   places in populateAllocationRequestLower; v is the vector the new item would be appended to) *)
+Definition lower_align_for_prev (l : linear) (v : list sub) (resultOffset align atype : Z) : option Z :=
+  let g := l_gran l in
+  if (g >? 1) && negb (g =? align) && (zlen v >? 0) then
+    match scan_prev (rev v) resultOffset g (fun ty => allocations_conflict (l_h l) ty atype) with
+    | None => None
+    | Some true => Some (align_up resultOffset g)
+    | Some false => Some resultOffset
+    end
+  else Some resultOffset.
+
+Inductive lowres := LGranted (r : request) | LRefused | LFallthrough | LPanic.
+
+(* Go: populateAllocationRequestLower, "Try to allocate at the end of the first vector" *)
+Definition lower_end_of_first (l : linear) (allocSize align atype : Z) : lowres :=
+  let fv := first l in
+  let sv := second l in
+  let g := l_gran l in
+  match lower_align_for_prev l fv (align_up (end_of fv) align) align atype with
+  | None => LPanic
+  | Some resultOffset =>
+    let free_space_end :=
+      match l_mode l, last_z sv with
+      | MDouble, Some s => s_off s
+      | _, _ => l_size l
+      end in
+    if resultOffset + allocSize <=? free_space_end then
+      if g =? 0 then LPanic (* allocSize % 0: integer divide by zero *) else
+      let granted := LGranted (mkReq (resultOffset + 1) allocSize RTEndOf1st) in
+      if ((Z.rem allocSize g >? 0) || (Z.rem resultOffset g >? 0)) && mode_eqb (l_mode l) MDouble then
+        match scan_next (rev sv) resultOffset allocSize g (fun ty => allocations_conflict (l_h l) atype ty) with
+        | None => LPanic
+        | Some true => LRefused
+        | Some false => granted
+        end
+      else granted
+    else LFallthrough
+  end.
+
+(* Go: populateAllocationRequestLower, "we'll attempt to allocate at the end of the second vector" *)
+Definition lower_end_of_second (l : linear) (allocSize align atype : Z) : reqres :=
+  let fv := first l in
+  let sv := second l in
+  let g := l_gran l in
+  if zlen fv =? 0 then QRefused else
+  match lower_align_for_prev l sv (align_up (end_of sv) align) align atype with
+  | None => QPanic
+  | Some resultOffset =>
+    let idx := l_null_begin l in
+    let fits : option bool :=
+      if idx =? zlen fv then Some (resultOffset + allocSize <=? l_size l)
+      else if idx <? zlen fv then
+        match nth_z fv idx with
+        | None => None
+        | Some s => Some (resultOffset + allocSize <=? s_off s)
+        end
+      else Some false in
+    match fits with
+    | None => QPanic
+    | Some false => QRefused
+    | Some true =>
+      match suffix_from fv idx with
+      | None => QPanic
+      | Some items =>
+        match scan_next items resultOffset allocSize g (fun ty => allocations_conflict (l_h l) atype ty) with
+        | None => QPanic
+        | Some true => QRefused
+        | Some false => QGranted (mkReq (resultOffset + 1) allocSize RTEndOf2nd)
+        end
+      end
+    end
+  end.
+
+(* Go: populateAllocationRequestLower *)
+Definition populate_lower (l : linear) (allocSize align atype : Z) : reqres :=
+  let part1 :=
+    match l_mode l with
+    | MEmpty | MDouble => lower_end_of_first l allocSize align atype
+    | MRing => LFallthrough
+    end in
+  match part1 with
+  | LGranted r => QGranted r
+  | LRefused => QRefused
+  | LPanic => QPanic
+  | LFallthrough =>
+    match l_mode l with
+    | MEmpty | MRing => lower_end_of_second l allocSize align atype
+    | MDouble => QRefused
+    end
+  end.
+
+(* Go: populateAllocationRequestUpper, "Check next suballocations from second vector for
+   BufferImageGranularity conflicts. Increase alignment if necessary" *)
+Definition upper_align_for_next (l : linear) (resultOffset allocSize align atype : Z) : option Z :=
+  let g := l_gran l in
+  let sv := second l in
+  if (g >? 1) && (zlen sv >? 0) then
+    match scan_next (rev sv) resultOffset allocSize g (fun ty => allocations_conflict (l_h l) ty atype) with
+    | None => None
+    | Some false => Some resultOffset
+    | Some true =>
+      let end_offset := resultOffset + allocSize - 1 in
+      let aligned_end := align_down end_offset g in
+      Some (align_down (align_down (aligned_end - allocSize) g) align)
+    end
+  else Some resultOffset.
+
+(* Go: populateAllocationRequestUpper *)
+Definition populate_upper (l : linear) (allocSize align atype : Z) : reqres :=
+  let fv := first l in
+  let sv := second l in
+  let g := l_gran l in
+  if mode_eqb (l_mode l) MRing then QError else
+  if allocSize >? l_size l then QRefused else
+  let base : option Z :=
+    match last_z sv with
+    | None => Some (l_size l - allocSize)
+    | Some s => if allocSize >? s_off s then None else Some (s_off s - allocSize)
+    end in
+  match base with
+  | None => QRefused
+  | Some baseOffset =>
+    match upper_align_for_next l (align_down baseOffset align) allocSize align atype with
+    | None => QPanic
+    | Some resultOffset =>
+      if end_of fv >? resultOffset then QRefused else
+      let granted := QGranted (mkReq (resultOffset + 1) allocSize RTUpperAddress) in
+      if g >? 1 then
+        match scan_prev (rev fv) resultOffset g (fun ty => allocations_conflict (l_h l) atype ty) with
+        | None => QPanic
+        | Some true => QRefused
+        | Some false => granted
+        end
+      else granted
+    end
+  end.
+
+(* Go: CreateAllocationRequest (strategy and maxOffset are ignored by the linear metadata) *)
+Definition create_request (l : linear) (allocSize align : Z) (upper : bool) (atype strategy maxOffset : Z) : reqres :=
+  if allocSize <=? 0 then QError else
+  if atype =? 0 then QError else
+  if upper then populate_upper l allocSize align atype
+  else populate_lower l allocSize align atype.
+
+(* ---------------------------------------------------------------- Alloc *)
+
+Inductive allocres := AOk (l' : linear) | AError | APanic.
+
+(* Go: Alloc, case AllocationRequestUpperAddress *)
+Definition alloc_upper (l : linear) (item : sub) : allocres :=
+  if mode_eqb (l_mode l) MRing then AError else
+  AOk (with_mode (with_second l (second l ++ [item])) MDouble).
+
+(* Go: Alloc, case AllocationRequestEndOf1st *)
+Definition alloc_end_of_first (l : linear) (item : sub) : allocres :=
+  let fv := first l in
+  let overlaps_last :=
+    match last_z fv with
+    | Some s => s_off item <? s_off s + s_size s
+    | None => false
+    end in
+  if overlaps_last then AError else
+  if s_off item + s_size item >? l_size l then AError else
+  AOk (with_first l (fv ++ [item])).
+
+(* Go: Alloc, case AllocationRequestEndOf2nd *)
+Definition alloc_end_of_second (l : linear) (item : sub) : allocres :=
+  let fv := first l in
+  let sv := second l in
+  if zlen fv =? 0 then AError else
+  match nth_z fv (l_null_begin l) with
+  | None => APanic
+  | Some s =>
+    if s_off item + s_size item >? s_off s then AError else
+    match l_mode l with
+    | MEmpty =>
+      if zlen sv >? 0 then AError
+      else AOk (with_second (with_mode l MRing) (sv ++ [item]))
+    | MRing =>
+      if zlen sv =? 0 then AError
+      else AOk (with_second l (sv ++ [item]))
+    | MDouble => AError
+    end
+  end.
+
+(* Go: Alloc(req, allocType, userData) *)
+Definition alloc (l : linear) (r : request) (atype : Z) (tag : option Z) (reqsize reqalign : Z) : allocres :=
+  let item := mkSub (rq_handle r - 1) (rq_size r) tag atype reqsize reqalign in
+  let placed :=
+    match rq_type r with
+    | RTUpperAddress => alloc_upper l item
+    | RTEndOf1st => alloc_end_of_first l item
+    | RTEndOf2nd => alloc_end_of_second l item
+    | RTTlsf => AError
+    end in
+  match placed with
+  | AOk l1 => AOk (with_sum_free l1 (l_sum_free l1 - s_size item))
+  | failed => failed
+  end.
+
+(* ---------------------------------------------------------------- VisitAllRegions, statistics *)
+
+(* (offset, size, free, userData) as passed to the callback *)
+Definition region := (Z * Z * bool * option Z)%type.
+
+(* The three loops of VisitAllRegions have the same body:
+     for lastOffset < limit {
+       skip freed items;
+       if an item is left { report the gap before it (if any); report it; lastOffset = its end }
+       else { report [lastOffset, limit) as free; lastOffset = limit } }
+   `items` are the not yet visited suballocations in visiting order.  Returns the regions reported
+   and the final lastOffset. *)
+Fixpoint visit_items (items : list sub) (lastOffset limit : Z) : list region * Z :=
+  match items with
+  | [] =>
+    if lastOffset <? limit then ([(lastOffset, limit - lastOffset, true, None)], limit)
+    else ([], lastOffset)
+  | s :: rest =>
+    if lastOffset <? limit then
+      if is_free s then visit_items rest lastOffset limit
+      else
+        let gap := if lastOffset <? s_off s then [(lastOffset, s_off s - lastOffset, true, None)] else [] in
+        let '(rs, last') := visit_items rest (s_off s + s_size s) limit in
+        (gap ++ (s_off s, s_size s, false, s_tag s) :: rs, last')
+    else ([], lastOffset)
+  end.
+
+(* Go: VisitAllRegions, the `if m.secondVectorMode == SecondVectorModeRingBuffer {...}` block *)
+Definition visit_ring_part (l : linear) : option (list region * Z) :=
+  match l_mode l with
+  | MRing =>
+    match nth_z (first l) (l_null_begin l) with
+    | None => None
+    | Some s => Some (visit_items (second l) 0 (s_off s))
+    end
+  | _ => Some ([], 0)
+  end.
+
+(* Go: VisitAllRegions, freeSpaceFirstToSecondEnd *)
+Definition visit_first_limit (l : linear) : option Z :=
+  match l_mode l with
+  | MDouble =>
+    match last_z (second l) with
+    | None => None
+    | Some s => Some (s_off s)
+    end
+  | _ => Some (l_size l)
+  end.
+
+(* Go: VisitAllRegions, the loop over the first vector starting at firstNullItemsBeginCount *)
+Definition visit_first_part (l : linear) (lastOffset limit : Z) : option (list region * Z) :=
+  match suffix_from (first l) (l_null_begin l) with
+  | Some items => Some (visit_items items lastOffset limit)
+  | None => if lastOffset <? limit then None else Some ([], lastOffset)
+  end.
+
+(* Go: VisitAllRegions, the `if m.secondVectorMode == SecondVectorModeDoubleStack {...}` loop *)
+Definition visit_upper_part (l : linear) (lastOffset : Z) : list region * Z :=
+  match l_mode l with
+  | MDouble => visit_items (rev (second l)) lastOffset (l_size l)
+  | _ => ([], lastOffset)
+  end.
+
+(* Go: VisitAllRegions with a callback that never fails: the regions in visiting order.
+   None = panic *)
+Definition visit_regions (l : linear) : option (list region) :=
+  match visit_ring_part l with
+  | None => None
+  | Some (r1, last1) =>
+    match visit_first_limit l with
+    | None => None
+    | Some limit =>
+      match visit_first_part l last1 limit with
+      | None => None
+      | Some (r2, last2) =>
+        let '(r3, _) := visit_upper_part l last2 in
+        Some (r1 ++ r2 ++ r3)
+      end
+    end
+  end.
+
+(* same shapes as in Tlsf.v *)
+Record stats := mkStats { s_blocks : Z; s_allocs : Z; s_block_bytes : Z; s_alloc_bytes : Z }.
+Record dstats := mkDStats {
+  d_stats : stats; d_unused_count : Z;
+  d_alloc_min : option Z; d_alloc_max : Z; d_unused_min : option Z; d_unused_max : Z }.
+
+Definition region_is_free (r : region) : bool := let '(_, _, free, _) := r in free.
+Definition region_size (r : region) : Z := let '(_, size, _, _) := r in size.
+
+(* Go: AddStatistics on zeroed statistics.  None = VisitAllRegions panicked *)
+Definition add_statistics (l : linear) : option stats :=
+  match visit_regions l with
+  | None => None
+  | Some rs =>
+    let allocs := zlen (filter (fun r => negb (region_is_free r)) rs) in
+    Some (mkStats 1 allocs (l_size l) (l_size l - l_sum_free l))
+  end.
+
+(* min with "no value yet" (Go starts the minima at math.MaxInt) *)
+Definition omin (a : option Z) (x : Z) : option Z :=
+  match a with None => Some x | Some y => Some (if x <? y then x else y) end.
+
+(* Go: DetailedStatistics.AddUnusedRange *)
+Definition d_add_unused (d : dstats) (sz : Z) : dstats :=
+  mkDStats (d_stats d) (d_unused_count d + 1) (d_alloc_min d) (d_alloc_max d)
+           (omin (d_unused_min d) sz) (if d_unused_max d <? sz then sz else d_unused_max d).
+
+(* Go: DetailedStatistics.AddAllocation *)
+Definition d_add_alloc (d : dstats) (sz : Z) : dstats :=
+  let s := d_stats d in
+  mkDStats (mkStats (s_blocks s) (s_allocs s + 1) (s_block_bytes s) (s_alloc_bytes s + sz))
+           (d_unused_count d) (omin (d_alloc_min d) sz) (if d_alloc_max d <? sz then sz else d_alloc_max d)
+           (d_unused_min d) (d_unused_max d).
+
+(* Go: AddDetailedStatistics on cleared statistics.  None = VisitAllRegions panicked *)
+Definition add_detailed_statistics (l : linear) : option dstats :=
+  match visit_regions l with
+  | None => None
+  | Some rs =>
+    let d0 := mkDStats (mkStats 1 0 (l_size l) 0) 0 None 0 None 0 in
+    Some (fold_left (fun d r => if region_is_free r then d_add_unused d (region_size r)
+                                else d_add_alloc d (region_size r)) rs d0)
+  end.
+
+(* ---------------------------------------------------------------- Validate *)
+
+(* The three walks of Validate have the same body; `items` in visiting order.  Returns the new
+   (offset, sumUsedSize, null item count); None = an item starts before `offset` (error) *)
+Fixpoint walk_items (items : list sub) (offset used nulls : Z) : option (Z * Z * Z) :=
+  match items with
+  | [] => Some (offset, used, nulls)
+  | s :: rest =>
+    if s_off s <? offset then None else
+    if is_free s then walk_items rest (s_off s + s_size s) used (nulls + 1)
+    else walk_items rest (s_off s + s_size s) (used + s_size s) nulls
+  end.
+
+(* Go: Validate, the two checks relating the second vector's length and the mode *)
+Definition validate_modes (l : linear) : bool :=
+  let empty2 := zlen (second l) =? 0 in
+  let mode_empty := mode_eqb (l_mode l) MEmpty in
+  negb ((empty2 && negb mode_empty) || (negb empty2 && mode_empty)).
+
+(* Go: Validate, `if len(firstVector) != 0 {...}`.  None = firstVector[firstNullItemsBeginCount]
+   out of range *)
+Definition validate_first_ends (l : linear) : option bool :=
+  let fv := first l in
+  if zlen fv =? 0 then Some true else
+  match nth_z fv (l_null_begin l) with
+  | None => None
+  | Some s =>
+    if is_free s then Some false else
+    match last_z fv with
+    | None => None
+    | Some e => Some (negb (is_free e))
+    end
+  end.
+
+(* Go: Validate, `if len(secondVector) != 0 {...}` *)
+Definition validate_second_end (l : linear) : bool :=
+  match last_z (second l) with
+  | None => true
+  | Some e => negb (is_free e)
+  end.
+
+(* Go: Validate, the two checks of the null counters against the vector lengths *)
+Definition validate_counts (l : linear) : bool :=
+  (l_null_begin l + l_null_middle l <=? zlen (first l)) && (l_null_second l <=? zlen (second l)).
+
+Inductive walkres := WOk (offset used : Z) | WError | WPanic.
+
+(* Go: Validate, `if m.secondVectorMode == SecondVectorModeRingBuffer {...}` *)
+Definition validate_ring_walk (l : linear) : walkres :=
+  match l_mode l with
+  | MRing =>
+    if (zlen (first l) =? 0) && negb (zlen (second l) =? 0) then WError else
+    match walk_items (second l) 0 0 0 with
+    | None => WError
+    | Some (offset, used, nulls) => if nulls =? l_null_second l then WOk offset used else WError
+    end
+  | _ => WOk 0 0
+  end.
+
+(* Go: Validate, the walk over the first vector from firstNullItemsBeginCount *)
+Definition validate_first_walk (l : linear) (offset used : Z) : walkres :=
+  match suffix_from (first l) (l_null_begin l) with
+  | None => WPanic
+  | Some items =>
+    match walk_items items offset used (l_null_begin l) with
+    | None => WError
+    | Some (offset', used', nulls) =>
+      if nulls =? l_null_begin l + l_null_middle l then WOk offset' used' else WError
+    end
+  end.
+
+(* Go: Validate, `if m.secondVectorMode == SecondVectorModeDoubleStack {...}` *)
+Definition validate_upper_walk (l : linear) (offset used : Z) : walkres :=
+  match l_mode l with
+  | MDouble =>
+    match walk_items (rev (second l)) offset used 0 with
+    | None => WError
+    | Some (offset', used', nulls) => if nulls =? l_null_second l then WOk offset' used' else WError
+    end
+  | _ => WOk offset used
+  end.
+
+(* Go: Validate from `var sumUsedSize, offset int` to the end *)
+Definition validate_walks (l : linear) : option bool :=
+  match validate_ring_walk l with
+  | WPanic => None
+  | WError => Some false
+  | WOk o1 u1 =>
+    match validate_first_walk l o1 u1 with
+    | WPanic => None
+    | WError => Some false
+    | WOk o2 u2 =>
+      match validate_upper_walk l o2 u2 with
+      | WPanic => None
+      | WError => Some false
+      | WOk o3 u3 =>
+        if o3 >? l_size l then Some false else
+        Some (l_sum_free l =? l_size l - u3)
+      end
+    end
+  end.
+
+(* Go: Validate.  Some true = nil, Some false = error, None = panic *)
+Definition validate (l : linear) : option bool :=
+  if negb (validate_modes l) then Some false else
+  match validate_first_ends l with
+  | None => None
+  | Some false => Some false
+  | Some true =>
+    if negb (validate_second_end l) then Some false else
+    if negb (validate_counts l) then Some false else
+    validate_walks l
+  end.
+
+(* ---------------------------------------------------------------- one-step interface *)
+
+Inductive op :=
+| OAlloc (size align atype strategy : Z) (upper : bool) (maxOffset : Z) (tag : option Z)
+| ORequest (size align atype strategy : Z) (upper : bool) (maxOffset : Z)
+| OFree (handle : Z)
+| OSetUD (handle : Z) (tag : option Z)
+| OClear
+| OMayHave (atype size : Z).
+
+Record outcome := mkOut { o_kind : rkind; o_off : Z; o_size : Z }.
+
+Definition out (k : rkind) := mkOut k 0 0.
+
+Definition step (l : linear) (o : op) : linear * outcome :=
+  match o with
+  | OAlloc size align atype strategy upper maxOffset tag =>
+    match create_request l size align upper atype strategy maxOffset with
+    | QError => (l, out RError)
+    | QRefused => (l, out RRefused)
+    | QPanic => (l, out RPanic)
+    | QGranted r =>
+      match alloc l r atype tag size align with
+      | AOk l' => (l', mkOut ROk (rq_offset r) (rq_size r))
+      | AError => (l, out RError)
+      | APanic => (l, out RPanic)
+      end
+    end
+  | ORequest size align atype strategy upper maxOffset =>
+    match create_request l size align upper atype strategy maxOffset with
+    | QError => (l, out RError)
+    | QRefused => (l, out RRefused)
+    | QPanic => (l, out RPanic)
+    | QGranted r => (l, mkOut ROk (rq_offset r) (rq_size r))
+    end
+  | OFree h =>
+    match lin_free l h with
+    | FOk l' => (l', out ROk)
+    | FError => (l, out RError)
+    | FPanic => (l, out RPanic)
+    end
+  | OSetUD h tag =>
+    match set_user_data l h tag with
+    | SetOk l' => (l', out ROk)
+    | SetError => (l, out RError)
+    | SetPanic => (l, out RPanic)
+    end
+  | OClear => (lin_clear l, out ROk)
+  | OMayHave atype size => (l, mkOut ROk (if may_have_free l atype size then 1 else 0) 0)
+  end.
